@@ -443,7 +443,7 @@ func TestC12(t *testing.T) {
 	rec1(nil)
 	rec.R.Exhaustive = complete
 	rec.Flush()
-	total := 400 / cfg.NShards
+	total := 4000 / cfg.NShards
 	if cfg.Thorough() {
 		total = 40000 / cfg.NShards
 	}
